@@ -106,7 +106,8 @@ class SSet:
     # ---- methods ------------------------------------------------------
     def getattr(self, ex, st, name):
         sx = _sx()
-        if name in ("union", "difference", "remove", "add", "copy", "intersection", "discard"):
+        if name in ("union", "difference", "remove", "add", "copy", "intersection", "discard", "update", "difference_update",
+                    "intersection_update", "issubset", "issuperset", "isdisjoint", "clear"):
             return sx.BoundLib(self, name)
         raise Unsupported("set attribute " + name)
 
@@ -141,6 +142,27 @@ class SSet:
             return SSet(m, ctx, self.name + "_i")
         if name == "copy":
             return SSet(self.mem, ctx, self.name + "_c")
+        if name in ("update", "difference_update", "intersection_update", "clear"):
+            if self.iterating:
+                ex.ctx.obligation("no-mutation-during-iteration", False)
+            m = self.mem
+            if name == "clear":
+                m = z3.EmptySet(I)
+            for o in args:
+                om = self._other_mem(ex, st, o)
+                m = z3.SetUnion(m, om) if name == "update" else (z3.SetDifference(m, om) if name == "difference_update" else z3.SetIntersect(m, om))
+            self.mem = m
+            self.new_order(ctx)
+            st.log.append(("sset", self.oid, name, None))
+            return None
+        if name in ("issubset", "issuperset", "isdisjoint"):
+            om = self._other_mem(ex, st, args[0])
+            e = z3.Int("e!q")
+            if name == "issubset":
+                return z3.ForAll([e], z3.Implies(z3.Select(self.mem, e), z3.Select(om, e)))
+            if name == "issuperset":
+                return z3.ForAll([e], z3.Implies(z3.Select(om, e), z3.Select(self.mem, e)))
+            return z3.ForAll([e], z3.Not(z3.And(z3.Select(om, e), z3.Select(self.mem, e))))
         if name in ("remove", "add", "discard"):
             if self.iterating:
                 ex.ctx.obligation("no-mutation-during-iteration", False)
@@ -167,6 +189,25 @@ class SSet:
         q.mem = self.mem
         q.distinct = True
         q.from_set = self
+        return q
+
+    def to_sorted_list(self, ex, st):
+        """sorted(S): the members in ascending order (a second bijection [0, card) -> members that is strictly increasing;
+        nothing relates it to the set's own ghost iteration order)."""
+        n = self.card()
+        seq = fresh_const(ex.ctx, "sorted_" + self.name, SEQSORT)
+        pos = fresh_const(ex.ctx, "sortedpos_" + self.name, SEQSORT)
+        i, j, e = z3.Int("i!q"), z3.Int("j!q"), z3.Int("e!q")
+        st.pc.append(z3.ForAll([i], z3.Implies(z3.And(0 <= i, i < n), z3.And(z3.Select(self.mem, z3.Select(seq, i)), z3.Select(pos, z3.Select(seq, i)) == i))))
+        st.pc.append(z3.ForAll([e], z3.Implies(z3.Select(self.mem, e), z3.And(0 <= z3.Select(pos, e), z3.Select(pos, e) < n, z3.Select(seq, z3.Select(pos, e)) == e))))
+        st.pc.append(z3.ForAll([i, j], z3.Implies(z3.And(0 <= i, i < j, j < n), z3.Select(seq, i) < z3.Select(seq, j))))
+        st.pc.append(n >= 0)
+        q = SSeq(ex.ctx, self.name + "_sorted")
+        q.length_t = n
+        q.elems = seq
+        q.mem = self.mem
+        q.distinct = True
+        q.from_set = None
         return q
 
     def symbolic_for(self, ex, st, stmt, enumerate_=False):
@@ -218,6 +259,8 @@ class SSeq:
         if name == "append":
             if self.iterating:
                 ex.ctx.obligation("no-mutation-during-iteration", False)
+            if isinstance(args[0], (tuple, list)) or not (isinstance(args[0], int) or (z3.is_expr(args[0]) and z3.is_int(args[0]))):
+                raise Unsupported("append of a non-integer (%s) to an index list" % type(args[0]).__name__)
             x = V.Z(args[0])
             if not z3.is_int(x):
                 raise Unsupported("append of a non-integer to an index list")
@@ -574,8 +617,20 @@ def loop_over(ex, st, stmt, src):
         if exit_paths:
             allc = consts + local_consts
             st.pc.append(_forall(allc, z3.Not(exit_cond)))
+        # exhausted: every iteration took a non-exit path, so a name that no non-exit path assigns keeps its pre-loop
+        # value (e.g. a flag set just before `break`); names assigned on a non-exit path are loop-local temporaries
+        assigned_on_next = set(n for n in body_names for r in next_paths if r["st"].frame.locals.get(n, POISON) is not POISON)
+        assigned_on_next |= _assigned_names([stmt.target])
+        for r in exit_paths:
+            for nme in body_names - assigned_on_next:
+                # on an exit path such a name still holds its pre-loop value unless this iteration assigned it
+                if r["st"].frame.locals.get(nme) is POISON and nme in st.frame.locals:
+                    v0 = st.frame.locals[nme]
+                    if v0 is None or isinstance(v0, (bool, int, str)) or z3.is_expr(v0):
+                        r["st"].frame.locals[nme] = v0
         for nme in body_names:
-            st.frame.locals[nme] = POISON
+            if nme in assigned_on_next or nme not in st.frame.locals:
+                st.frame.locals[nme] = POISON
         for (oid, fname), lst in const_sets.items():
             vals = set(v for _, v in lst)
             if len(vals) != 1:
